@@ -78,9 +78,20 @@ theorem WF.pCreateDir {m : FMap} (h : WF m) (p : Str) : WF (Mem.pCreateDir m p).
 theorem WF.memPublish {m : FMap} (h : WF m) (p : Str) (buf : Bytes) (e : Entry)
     (he : m.find? p = some e) (hf : e.ftype = .file) : WF (memPublish m p buf) := by
   unfold Vfs.memPublish
+  simp only [he, hf, ↓reduceIte]
   apply h.insert_leaf
   · intro e' he'; rw [he] at he'; injection he' with he'; subst he'; exact hf
   · intro hn; rw [hn] at he; cases he
+
+/-- publishing never breaks well-formedness, whatever sits at the destination now (a handle
+used after its file was removed publishes nothing) -/
+theorem WF.memPublish_any {m : FMap} (h : WF m) (p : Str) (buf : Bytes) :
+    WF (Vfs.memPublish m p buf) := by
+  rcases Option.eq_none_or_eq_some (m.find? p) with hn | ⟨e, he⟩
+  · unfold Vfs.memPublish; simp only [hn]; exact h
+  · by_cases hf : e.ftype = .file
+    · exact h.memPublish p buf e he hf
+    · unfold Vfs.memPublish; simp only [he, hf, ↓reduceIte]; exact h
 
 /-- `create_file` under the parent probe: well-formed, and on success a file sits at `p` -/
 theorem WF.createFile {m : FMap} (h : WF m) (p : Str) (hp : Mem.parentOk m p = true) :
